@@ -26,6 +26,9 @@ type KPayload struct {
 	HmB  []byte `class:"secret,hmac-sha256"`
 	Enc2 string `class:"secret,encrypt"`
 	Hm2  string `class:"sensitive,hmac-sha256"` // same plaintext as Hm: equal inputs give equal digests
+	// slices are protected element by element: each element as if it stood alone (repeated elements, an empty one)
+	HmS  []string `class:"sensitive,hmac-sha256"`
+	EncS [][]byte `class:"secret,encrypt"`
 }
 
 type infoPayload struct {
@@ -125,6 +128,10 @@ func genBytesVal(r *rt.Rand) []byte {
 	case 2:
 		b := r.Bytes(r.Range(1, 64))
 		return b
+	case 3:
+		// an original that merely looks like the filter's own output is an original all the same
+		tail := rt.Pick(r, []string{"", "QUJD", "QUJDRA", "QUJDREU", fmt.Sprintf("value_%d-%x", r.Intn(1000), r.Uint64()), "not base64 !"})
+		return []byte(rt.Pick(r, []string{cryp.EncPrefix, cryp.HmacPrefix, cryp.Redacted}) + tail)
 	}
 	return []byte(fmt.Sprintf("value-%d-%x", r.Intn(1000), r.Uint64()))
 }
@@ -177,6 +184,43 @@ func verifyEvent(orig KPayload, out KPayload, encKey, hmacKey, salt, info []byte
 			return fmt.Sprintf("HmB (secret,hmac-sha256) = %q, HMAC-SHA256 under the key/salt/info in force for the event is %q", out.HmB, want)
 		}
 	}
+	if len(out.HmS) != len(orig.HmS) || len(out.EncS) != len(orig.EncS) {
+		return fmt.Sprintf("slice lengths changed: HmS %d -> %d, EncS %d -> %d", len(orig.HmS), len(out.HmS), len(orig.EncS), len(out.EncS))
+	}
+	for i := range orig.HmS {
+		if out.HmS[i] != cryp.Redacted {
+			return fmt.Sprintf("HmS[%d] (class sensitive) must be redacted when the sensitive class is overridden to redact, got %.40q", i, out.HmS[i])
+		}
+	}
+	return verifySlices(orig, out, encKey, nil, nil, nil, otherKeys, false)
+}
+
+// verifySlices: every element of a protected slice is protected as if it stood alone.
+func verifySlices(orig KPayload, out KPayload, encKey, hmacKey, salt, info []byte, otherKeys [][]byte, hm bool) string {
+	if len(out.HmS) != len(orig.HmS) || len(out.EncS) != len(orig.EncS) {
+		return fmt.Sprintf("slice lengths changed: HmS %d -> %d, EncS %d -> %d", len(orig.HmS), len(out.HmS), len(orig.EncS), len(out.EncS))
+	}
+	for i := range orig.EncS {
+		pt, err := cryp.Open(string(out.EncS[i]), encKey)
+		if err != nil {
+			return fmt.Sprintf("EncS[%d] does not decrypt with the wrapper in force: %v", i, err)
+		}
+		if !bytes.Equal(pt, orig.EncS[i]) {
+			return fmt.Sprintf("EncS[%d] decrypts to %q, original %q", i, pt, orig.EncS[i])
+		}
+		for _, ok := range otherKeys {
+			if _, err := cryp.Open(string(out.EncS[i]), ok); err == nil {
+				return fmt.Sprintf("EncS[%d] also decrypts under a key that is not in force (no key separation)", i)
+			}
+		}
+	}
+	if hm {
+		for i := range orig.HmS {
+			if want := cryp.Hmac([]byte(orig.HmS[i]), hmacKey, salt, info); out.HmS[i] != want {
+				return fmt.Sprintf("HmS[%d] = %q, HMAC-SHA256 of that element under the key/salt/info in force is %q", i, out.HmS[i], want)
+			}
+		}
+	}
 	return ""
 }
 
@@ -215,12 +259,27 @@ func verifyEventSkipEnc(orig KPayload, out KPayload, encKey, hmacKey, salt, info
 			return fmt.Sprintf("%s = %q, HMAC-SHA256 under the key/salt/info in force is %q", e.name, e.got, want)
 		}
 	}
-	return ""
+	return verifySlices(orig, out, encKey, hmacKey, salt, info, otherKeys, true)
 }
 
 func genK(r *rt.Rand) KPayload {
 	k := KPayload{Pub: "pub", Enc: string(genBytesVal(r)), EncB: genBytesVal(r), Hm: string(genBytesVal(r)), HmB: genBytesVal(r), Enc2: string(genBytesVal(r))}
 	k.Hm2 = k.Hm
+	if r.Intn(3) > 0 {
+		for i, n := 0, r.Range(1, 4); i < n; i++ {
+			switch {
+			case i > 0 && r.Intn(3) == 0:
+				k.HmS = append(k.HmS, k.HmS[r.Intn(i)])
+			case i > 0 && r.Intn(4) == 0:
+				k.HmS = append(k.HmS, "")
+			default:
+				k.HmS = append(k.HmS, string(genBytesVal(r)))
+			}
+		}
+		for i, n := 0, r.Range(1, 3); i < n; i++ {
+			k.EncS = append(k.EncS, genBytesVal(r))
+		}
+	}
 	if r.Intn(10) == 0 {
 		k.EncB = nil
 	}
